@@ -1,13 +1,118 @@
-import WhatwgUrl.Impl.Host
-import WhatwgUrl.Spec.Url
+import WhatwgUrl.Proofs.IPv6RT
+import WhatwgUrl.Proofs.IPv6Parse
 /-
-  C08 — IPv6 hosts (interim part; the conformance theorems are merged when ready).
+  C08 — IPv6: the Go serializer picks the standard's compress index, is the standard's serializer, renders canonical
+  pieces; serialize-then-parse is the identity on every address; the Go parser computes what the standard's parser
+  computes on every text. Helper lemmas: Proofs/IPv6.lean (serializer), Proofs/IPv6RT.lean (round trip),
+  Proofs/IPv6Parse.lean (parser simulation).
 -/
 namespace WhatwgUrl.Props.C08
-open WhatwgUrl WhatwgUrl.Impl
+open WhatwgUrl WhatwgUrl.Impl WhatwgUrl.Proofs.IPv6
 
-/-- ties between equally long zero runs: the first one is compressed -/
-theorem C08_first_of_equal_runs : ipv6String [1, 0, 0, 1, 0, 0, 1, 1] = lit "1::1:0:0:1:1" ∧ ipv6String [0, 0, 1, 0, 0, 0, 0, 1] = lit "0:0:1::1" := by
-  decide
+/-- an IPv6 address: eight 16-bit pieces -/
+def Addr (a : List Nat) : Prop := a.length = 8 ∧ ∀ x ∈ a, x < 65536
+
+/-- 1. the Go serializer's scan picks the standard's "first longest sequence of 2 or more 0 pieces" -/
+theorem C08_compress_is_first_longest (a : List Nat) (h : a.length = 8) :
+    ipv6CompressScan a = match Spec.compressIndex a with | some i => (i : Int) | none => -1 :=
+  compressScan_eq a h
+
+example : ([1, 0, 0, 1, 0, 0, 1, 1] : List Nat).length = 8 := by decide
+example : ipv6CompressScan [1, 0, 0, 1, 0, 0, 1, 1] = 1 := by decide
+example : Spec.compressIndex [1, 0, 0, 1, 0, 0, 1, 1] = some 1 := by decide
+example : ipv6CompressScan [1, 0, 1, 0, 1, 0, 1, 0] = -1 := by decide
+example : ipv6CompressScan [1, 0, 0, 1, 0, 0, 0, 1] = 4 := by decide
+
+/-- 2. the Go serializer is the standard's serializer -/
+theorem C08_serializer_conforms (a : List Nat) (h : a.length = 8) : ipv6String a = utf8 (Spec.serializeIPv6 a) :=
+  ipv6String_eq a h
+
+example : ipv6String [0, 0, 1, 0, 0, 0, 0, 1] = lit "0:0:1::1" := by decide
+example : ipv6String [1, 0, 0, 1, 0, 0, 1, 1] = lit "1::1:0:0:1:1" := by decide
+example : Spec.serializeIPv6 [1, 0, 0, 1, 0, 0, 1, 1] = "1::1:0:0:1:1".toList := by decide
+example : ipv6String [0, 0, 0, 0, 0, 0, 0, 0] = lit "::" := by decide
+example : ipv6String [0x2001, 0xdb8, 0, 0, 0, 0, 0, 0xffff] = lit "2001:db8::ffff" := by decide +kernel
+
+/-- 3. every piece is rendered as the shortest lowercase hexadecimal numeral -/
+theorem C08_piece_canonical (n : Nat) (h : n < 65536) :
+    let s := Spec.hexLowerStr n
+    1 ≤ s.length ∧ s.length ≤ 4 ∧ (∀ c ∈ s, isDigitN c.toNat ∨ (0x61 ≤ c.toNat ∧ c.toNat ≤ 0x66)) ∧
+      (s.head? = some '0' → n = 0) ∧ Spec.strVal 16 s = n := by
+  intro s
+  have hs : s = (digits4 n).map fun d => bc (hexLower d) := hexLowerStr_eq n h
+  have hlt := digits4_lt n h
+  refine ⟨?_, ?_, ?_, ?_, ?_⟩
+  · rw [hs, List.length_map]; exact (digits4_length n).1
+  · rw [hs, List.length_map]; exact (digits4_length n).2
+  · intro c hc
+    rw [hs, List.mem_map] at hc
+    obtain ⟨d, hd, rfl⟩ := hc
+    exact (hexChar_facts ⟨d, hlt d hd⟩).1
+  · intro h0
+    apply digits4_head
+    rw [hs, List.head?_map] at h0
+    cases hd : (digits4 n).head? with
+    | none => rw [hd] at h0; cases h0
+    | some d =>
+      rw [hd] at h0
+      have hm : d ∈ digits4 n := List.mem_of_head? hd
+      have := (hexChar_facts ⟨d, hlt d hm⟩).2.1 (by simpa using h0)
+      simp only at this
+      rw [this]
+  · rw [hs, Spec.strVal, strVal_digits _ hlt, digits4_val n h]
+
+example : Spec.hexLowerStr 0xdb8 = "db8".toList := by decide
+example : Spec.hexLowerStr 0 = "0".toList := by decide
+example : Spec.hexLowerStr 65535 = "ffff".toList := by decide +kernel
+
+
+/-- the hex-piece lemma: the standard's hex loop run over the rendering of a piece followed by anything that does not
+    start with a hex digit consumes exactly the piece and returns its value -/
+theorem C08_hex_piece (input rest : Str) (v p : Nat) (hv : v < 65536) (hrest : Spec.isHexC rest.head? = false)
+    (hd : input.drop p = Spec.hexLowerStr v ++ rest) :
+    Spec.hexRun input 5 0 0 p = (v, (Spec.hexLowerStr v).length, p + (Spec.hexLowerStr v).length) :=
+  hexRun_piece input rest v p hv hrest hd
+
+example : Spec.hexRun "1:db8::".toList 5 0 0 2 = (0xdb8, 3, 5) := by decide +kernel
+example : Spec.hexRun "1:db8::".toList 5 0 0 2 =
+    (0xdb8, (Spec.hexLowerStr 0xdb8).length, 2 + (Spec.hexLowerStr 0xdb8).length) :=
+  C08_hex_piece _ "::".toList 0xdb8 2 (by decide) (by decide) (by decide +kernel)
+
+/-- 4. serialize-then-parse is the identity on all 2^128 addresses -/
+theorem C08_roundtrip (a : List Nat) (h : Addr a) : Spec.parseIPv6 (Spec.serializeIPv6 a) = some a :=
+  roundtrip a h.1 h.2
+
+example : Addr [0x2001, 0xdb8, 0, 0, 1, 0, 0, 0xffff] := by unfold Addr; decide
+example : Spec.parseIPv6 "1::2".toList = some [1, 0, 0, 0, 0, 0, 0, 2] := by decide
+example : Spec.parseIPv6 (Spec.serializeIPv6 [1, 0, 0, 1, 0, 0, 1, 1]) = some [1, 0, 0, 1, 0, 0, 1, 1] := by decide +kernel
+example : Spec.parseIPv6 "::".toList = some [0, 0, 0, 0, 0, 0, 0, 0] := by decide
+
+
+/-- 5. the Go parser equals the standard's on every text (and never panics): both fail, or both succeed and the Go
+    result is the bracketed Go serialization of the address the standard computes -/
+theorem C08_parse_conforms (cfg : Cfg) (u : Url) (t : Bytes) :
+    match (parseIPv6 cfg u t).out, Spec.parseIPv6 (goRunes t) with
+    | .ok h, some a => h = [0x5b] ++ ipv6String a ++ [0x5d]
+    | .err _, none => True
+    | _, _ => False :=
+  parse_conforms cfg u t
+
+/-- consequence of 2 and 5: the Go parser returns the standard's serialization of the standard's address -/
+theorem C08_parse_conforms_serialized (cfg : Cfg) (u : Url) (t : Bytes) (a : List Nat)
+    (h : Spec.parseIPv6 (goRunes t) = some a) (ha : a.length = 8) :
+    (parseIPv6 cfg u t).out = .ok ([0x5b] ++ utf8 (Spec.serializeIPv6 a) ++ [0x5d]) := by
+  have := C08_parse_conforms cfg u t
+  rw [h] at this
+  cases ho : (parseIPv6 cfg u t).out with
+  | ok x => rw [ho] at this; simp only at this; rw [this, C08_serializer_conforms a ha]
+  | err e => rw [ho] at this; exact absurd this id
+  | panic n => rw [ho] at this; exact absurd this id
+
+example : Spec.parseIPv6 (goRunes (lit "1::2")) = some [1, 0, 0, 0, 0, 0, 0, 2] := by decide +kernel
+example : (parseIPv6 {} {} (lit "1::2")).out = .ok (lit "[1::2]") := by decide +kernel
+example : (parseIPv6 {} {} (lit "::ffff:1.2.3.4")).out = .ok (lit "[::ffff:102:304]") := by decide +kernel
+example : Spec.parseIPv6 "::ffff:1.2.3.4".toList = some [0, 0, 0, 0, 0, 0xffff, 0x102, 0x304] := by decide +kernel
+example : (parseIPv6 {} {} (lit "1:2:3")).out = .err ⟨.IPv6TooFewPieces, true⟩ := by decide +kernel
+example : Spec.parseIPv6 "1:2:3".toList = none := by decide +kernel
 
 end WhatwgUrl.Props.C08
